@@ -170,7 +170,7 @@ class Runner:
             if kn.split(":")[-1] == "seq" and op[1] + len(self.told) + len(self.outstanding) > 10:
                 return None  # keep SequenceLearner children away from exhaustion inside wrappers
             n = op[1]
-            if n == 0 and kn.split(":")[-1] in ("avg", "avg1d", "lnd2", "lnd3", "l2d"):
+            if n == 0 and (kn.split(":")[-1] in ("avg", "avg1d", "l2d") or kn.split(":")[-1].startswith("lnd")):
                 n = 1  # ask(0) raises in these learners (division by n / unpacking an empty zip); not a C09/C10 matter
             return ("ask", n, op[2])
         if op[0] == "tell_asked" and self.outstanding:
